@@ -6,9 +6,11 @@ import (
 	"context"
 	"errors"
 	"fmt"
+	"strings"
 
 	"github.com/cossacklabs/acra/cmd/acra-translator/common"
 	"github.com/cossacklabs/acra/crypto"
+	"github.com/cossacklabs/acra/hmac"
 	poisonpkg "github.com/cossacklabs/acra/poison"
 
 	"verifharness/internal/core"
@@ -104,6 +106,79 @@ func init() {
 	})
 }
 
+// translatorOps: a bare poison record (no searchable-hash prefix) handed to each of the four decrypt operations of
+// the real TranslatorService (ops C01.tr.*: the same service object, fake key store and counting callback as C01 uses):
+// Decrypt / DecryptSym, and DecryptSearchable / DecryptSymSearchable with the hash argument nil, empty, a well-formed
+// hash of something else, malformed bytes – and with such a hash in front of the data instead. Whatever path the
+// operation takes (no hash can be split off; the rest does not decrypt), the alarm must be raised and the client must
+// get an error.
+func translatorOps(r *core.Run, i int, pk, kv *env.KV, kind string, P []byte) {
+	rd := r.Rand
+	hk := rd.Bytes(32)
+	store := func(hmacKey []byte) string {
+		h := "none"
+		if hmacKey != nil {
+			h = core.Hex(hmacKey)
+		}
+		return fmt.Sprintf("true false %s %s %s %s", pk.Tokens(), core.Hex([]byte("client")), kv.Tokens(), h)
+	}
+	wrong := hmac.GenerateHMAC(append([]byte{}, hk...), rd.Bytes(1+rd.Intn(20))) // a well-formed hash of other data
+	var malformed []byte
+	for _, b := range rd.Bytes(1 + rd.Intn(40)) {
+		if b != '%' && b != wrong[0] {
+			malformed = append(malformed, b)
+		}
+	}
+	if len(malformed) == 0 {
+		malformed = []byte{1}
+	}
+	type hcase struct {
+		name string
+		hash string // token of the hash argument
+		data []byte
+	}
+	hashes := []hcase{
+		{"nil", "nil", P},
+		{"empty", "-", P},
+		{"wrong", core.Hex(wrong), P},
+		{"malformed", core.Hex(malformed), P},
+		{"wrong-in-front-of-data", "nil", append(append([]byte{}, wrong...), P...)},
+		{"short-hash-byte-in-front", "nil", append([]byte{wrong[0]}, P...)}, // hash function number, then too few bytes? no: P follows – a look-alike hash made of the record's own bytes
+	}
+	for _, op := range []string{"Decrypt", "DecryptSym", "DecryptSearchable", "DecryptSymSearchable"} {
+		searchable := strings.HasSuffix(op, "Searchable")
+		hs := hashes
+		if !searchable {
+			hs = hashes[:1]
+		}
+		for _, h := range hs {
+			for _, withHmac := range []bool{true, false} {
+				if !searchable && !withHmac {
+					continue
+				}
+				var hm []byte
+				if withHmac {
+					hm = hk
+				}
+				r.Begin(fmt.Sprintf("poison-%d-tr-%s-%s-%v", i, op, h.name, withHmac), true, "kind:"+kind, "case:poison-translator", "op:"+op, "hash:"+h.name)
+				var line string
+				if searchable {
+					line = fmt.Sprintf("C01.tr.%s %s %s nil %s %s", op, store(hm), core.Hex([]byte("client")), h.hash, core.Hex(h.data))
+				} else {
+					line = fmt.Sprintf("C01.tr.%s %s %s nil %s", op, store(hm), core.Hex([]byte("client")), core.Hex(h.data))
+				}
+				res, _, alarms := parse(r.Do(line))
+				if h.name == "short-hash-byte-in-front" {
+					// the 32 bytes behind the function number are cut off the record itself: what is left is no record any more
+					// (property silent); only the model comparison counts here
+					continue
+				}
+				r.Check(res == "err" && alarms >= 1, "poison-missed:translator", fmt.Sprintf("AcraTranslator %s of a bare poison %s record (hash argument %s, HMAC key present=%v): %s alarms=%d – the poison callbacks did not run", op, kind, h.name, withHmac, res, alarms))
+			}
+		}
+	}
+}
+
 func parse(out string) (kind string, data []byte, alarms int) {
 	var h string
 	if n, _ := fmt.Sscanf(out, "ok %s %d", &h, &alarms); n == 2 {
@@ -119,8 +194,9 @@ func parse(out string) (kind string, data []byte, alarms int) {
 }
 
 func run(r *core.Run) {
-	r.Rule = "poison records of both kinds under key histories of length 1–3 (record sealed under any key of the history), alone or embedded at offsets 0–32 in junk/tag-rich columns, through the SQL-proxy callback stack and AcraTranslator decrypt; negatives: random bytes, client envelopes, bit-flipped/truncated poison records, callbacks not configured, poison keys missing; non-trivial = a column holding an (intact or damaged) envelope; distinct by column bytes"
+	r.Rule = "poison records of both kinds under key histories of length 1–3 (record sealed under any key of the history), alone or embedded at offsets 0–32 in junk/tag-rich columns, through the SQL-proxy callback stack and AcraTranslator decrypt; negatives: random bytes, client envelopes, bit-flipped/truncated poison records, callbacks not configured, poison keys missing; non-trivial = a column holding an (intact or damaged) envelope; distinct by column bytes; all four AcraTranslator decrypt operations on bare poison records with every shape of the hash argument; scenarios on a REAL v1 filesystem key store (cache -1/0/2/1000, key directory spelled 4 ways): detection attempt, rotation of the poison key pair / symmetric key by the handle, poison records under every generation alone and embedded"
 	rd := r.Rand
+	storeScenarios(r)
 	n := r.N(60, 2500)
 	for i := 0; i < n; i++ {
 		pk := env.NewKV(rd, 1+rd.Intn(3), 1+rd.Intn(3)) // poison key history, newest first
@@ -162,6 +238,8 @@ func run(r *core.Run) {
 		// translator decrypt of the record alone
 		res, _, alarms = parse(r.Do(fmt.Sprintf("C15.translator true false %s %s %s %s", pk.Tokens(), kv.Tokens(), kind, core.Hex(P))))
 		r.Check(res == "err" && alarms >= 1, "poison-missed-translator", fmt.Sprintf("AcraTranslator decrypt of a poison %s record: %s alarms=%d", kind, res, alarms))
+		// all four AcraTranslator decrypt operations on the bare record, with every shape of the hash argument
+		translatorOps(r, i, pk, kv, kind, P)
 		// 2. callbacks not configured: no check, no alarm
 		r.Begin(fmt.Sprintf("nocb-%d", i), true, "case:no-callbacks")
 		_, _, alarms = parse(r.Do(fmt.Sprintf("C15.proxy false false %s %s %s", pk.Tokens(), kv.Tokens(), core.Hex(col))))
